@@ -197,3 +197,139 @@ pub fn m_replay_percent_rule(kind: u8) {
         _ => assert!(false),
     }
 }
+
+pub fn nm_token(is_money: bool, x: f64, cur: &Rc<CurrencyInfo>) -> TokenType {
+    if is_money { TokenType::Money(x, cur.clone()) } else { TokenType::Number(x, NumberType::Decimal) }
+}
+
+fn guarded_div(a: f64, b: f64) -> f64 { if b == 0.0 { 0.0 } else { a / b } }
+
+/// 'A is what % of B' natively: (a_money, a, b_money, b)
+pub fn m_replay_find_numbers_percent() {
+    let cfg = blank_config();
+    let s = Session::new();
+    let tk = mk_tokinizer(&cfg, &s);
+    let cur = currency("aaa");
+    let am: bool = vany(); let a: f64 = vany(); let bm: bool = vany(); let b: f64 = vany();
+    let f = fields2("part", nm_token(am, a, &cur), "total", nm_token(bm, b, &cur));
+    let r = crate::tokinizer::verif_k_local::find_numbers_percent(&cfg, &tk, &f);
+    match &r {
+        Ok(TokenType::Percent(v)) => { let want = guarded_div(100.0 * a, b); assert!(close(*v, want, want)) }
+        _ => assert!(false),
+    }
+}
+
+/// 'A is p% of what' natively: (a_money, a, p)
+pub fn m_replay_find_total_from_percent() {
+    let cfg = blank_config();
+    let s = Session::new();
+    let tk = mk_tokinizer(&cfg, &s);
+    let cur = currency("aaa");
+    let am: bool = vany(); let a: f64 = vany(); let p: f64 = vany();
+    let f = fields2("number_part", nm_token(am, a, &cur), "percent_part", TokenType::Percent(p));
+    let r = crate::tokinizer::verif_k_local::find_total_from_percent(&cfg, &tk, &f);
+    let want = guarded_div(100.0 * a, p);
+    match &r {
+        Ok(TokenType::Number(v, _)) => { assert!(!am); assert!(close(*v, want, want)) }
+        Ok(TokenType::Money(v, c)) => { assert!(am); assert!(Rc::ptr_eq(c, &cur)); assert!(close(*v, want, want)) }
+        _ => assert!(false),
+    }
+}
+
+fn arith(k: u8, x: f64, y: f64) -> f64 {
+    // engine M's operator numbering: Add, Div, Mul, Sub
+    match k { 0 => x + y, 1 => guarded_div(x, y), 2 => x * y, _ => x - y }
+}
+
+fn op_m(k: u8) -> OperationType {
+    match k { 0 => OperationType::Add, 1 => OperationType::Div, 2 => OperationType::Mul, _ => OperationType::Sub }
+}
+
+/// number (op) number natively: (op, x, y)
+pub fn m_replay_number_calc() {
+    let cfg = blank_config();
+    let k: u8 = vany(); let x: f64 = vany(); let y: f64 = vany();
+    vassume(k < 4);
+    let r = NumberItem(x, NumberType::Decimal).calculate(&cfg, true, &NumberItem(y, NumberType::Decimal), op_m(k));
+    let it = r.expect("number op number is computed");
+    assert!(it.type_name() == "NUMBER");
+    let want = arith(k, x, y);
+    assert!(close(it.get_underlying_number(), want, x.abs() + y.abs() + want.abs()));
+}
+
+/// number|money (+,-) percent natively: (is_money, add, x, p)
+pub fn m_replay_calc_percent() {
+    let (cfg, a, _b) = two_currency_config(1.0, 2.0);
+    let is_money: bool = vany(); let add: bool = vany(); let x: f64 = vany(); let p: f64 = vany();
+    let op = if add { OperationType::Add } else { OperationType::Sub };
+    let r = if is_money { MoneyItem(x, a.clone()).calculate(&cfg, true, &PercentItem(p), op) } else { NumberItem(x, NumberType::Decimal).calculate(&cfg, true, &PercentItem(p), op) };
+    let it = r.expect("X +- p% is computed");
+    let share = x * p / 100.0;
+    let want = if add { x + share } else { x - share };
+    assert!(close(it.get_underlying_number(), want, x.abs() + share.abs()));
+    if is_money {
+        let m = it.as_any().downcast_ref::<MoneyItem>().expect("money stays money");
+        assert!(Rc::ptr_eq(&m.1, &a));
+    } else {
+        assert!(it.type_name() == "NUMBER");
+    }
+}
+
+/// convert_money natively: (same currency, amount, rate(A), rate(B))
+pub fn m_replay_convert_money() {
+    let same: bool = vany(); let x: f64 = vany(); let ra: f64 = vany(); let rb: f64 = vany();
+    let (mut cfg, a, b) = two_currency_config(ra, rb);
+    cfg.currency.insert("aaa".to_string(), a.clone());
+    cfg.currency.insert("bbb".to_string(), b.clone());
+    let s = Session::new();
+    let tk = mk_tokinizer(&cfg, &s);
+    let target = if same { "aaa" } else { "bbb" };
+    let f = fields2("money", TokenType::Money(x, a.clone()), "currency", TokenType::Text(target.to_string()));
+    let r = crate::tokinizer::verif_k_local::convert_money(&cfg, &tk, &f);
+    let rate_to = if same { ra } else { rb };
+    let want = guarded_div(x, ra) * rate_to;
+    match &r {
+        Ok(TokenType::Money(v, c)) => {
+            assert!(c.code == target);
+            assert!(close(*v, want, want));
+            if same && ra != 0.0 && ra.is_finite() { assert!(close(*v, x, x)); }
+        }
+        _ => assert!(false),
+    }
+}
+
+/// money (op) money natively: (op, same currency, x, y, rate(L), rate(R))
+pub fn m_replay_money_money() {
+    let k: u8 = vany(); let same: bool = vany(); let x: f64 = vany(); let y: f64 = vany(); let rl: f64 = vany(); let rr: f64 = vany();
+    vassume(k < 4);
+    let (cfg, a, b) = two_currency_config(rl, if same { rl } else { rr });
+    let right_cur = if same { a.clone() } else { b.clone() };
+    let r = MoneyItem(x, a.clone()).calculate(&cfg, true, &MoneyItem(y, right_cur), op_m(k));
+    let it = r.expect("money op money is computed");
+    let conv = y / (if same { rl } else { rr }) * rl;
+    if k == 1 {
+        assert!(it.type_name() == "NUMBER");
+        let want = guarded_div(x, conv);
+        assert!(close(it.get_underlying_number(), want, want));
+    } else {
+        let m = it.as_any().downcast_ref::<MoneyItem>().expect("money");
+        assert!(Rc::ptr_eq(&m.1, &a));
+        if k == 0 || k == 3 {
+            let want = arith(k, x, conv);
+            assert!(close(m.0, want, x.abs() + conv.abs()));
+        }
+    }
+}
+
+/// money (op) number natively: (op, x, y)
+pub fn m_replay_money_number() {
+    let k: u8 = vany(); let x: f64 = vany(); let y: f64 = vany();
+    vassume(k < 4);
+    let (cfg, a, _b) = two_currency_config(1.0, 2.0);
+    let r = MoneyItem(x, a.clone()).calculate(&cfg, true, &NumberItem(y, NumberType::Decimal), op_m(k));
+    let it = r.expect("money op number is computed");
+    let m = it.as_any().downcast_ref::<MoneyItem>().expect("money");
+    assert!(Rc::ptr_eq(&m.1, &a));
+    let want = arith(k, x, y);
+    assert!(close(m.0, want, x.abs() + y.abs() + want.abs()));
+}
